@@ -1,4 +1,5 @@
 import DadiVerif.Lemmas.Mass
+import DadiVerif.Lemmas.Marginal2
 /-!
 # C04 — mass leaves only via fixation/loss; frozen marginals exact; frozen+migration rejected
 
@@ -167,6 +168,59 @@ theorem C04_frozen_mig_rejected (fr : ℕ → Bool) (m : ℕ → ℕ → ℚ) :
     cases fr 0 <;> cases fr 1 <;> cases fr 2 <;> cases fr 3 <;> simp <;> grind
   · simp only [Py.frozenMigGuard5, guardSpec, List.range, List.range.loop, List.any]
     cases fr 0 <;> cases fr 1 <;> cases fr 2 <;> cases fr 3 <;> cases fr 4 <;> simp <;> grind
+
+/-! ### Isolated marginals (no migration, no selection)
+
+The marginal density of a subset S of populations evolves, at every point of the S-grid except its all-zero and all-one corners,
+exactly as if S were integrated alone with the same time step.  `σ` indexes the other S-coordinates of a line, `κ` the coordinates of
+the populations outside S (weights `W` = product of their trapezoid weights), `others s k` the other-coordinates list of the
+d-dimensional line (any interleaving of `cs s` and the complement's coordinates: only "all zero ⇒ S-part all zero" and the same for
+one are needed).  `MargAgree N cs μ ψ` = μ and ψ agree at every node of every S-line except node 0 of an all-zero S-line and node
+N−1 of an all-one S-line.  (Lemmas/Marginal.lean, Marginal2.lean; non-vacuity examples there.) -/
+
+/-- **sweep along an axis in S**: if the W-weighted marginal of the d-dimensional density agrees with the S-density off the corners,
+    it still does after both systems take one kernel sweep (decoupling a₁ = c_{N−2} = 0 + uniqueness of the interior system +
+    linearity of the solve) -/
+theorem C04_isolated_marginal_sweep {σ κ : Type} [Fintype κ] (W : κ → ℚ) (xs : Array ℚ) (Pd Ps : AxisParams)
+    (cs : σ → List ℚ) (others : σ → κ → List ℚ) (used uses : Bool) (epsd : σ → κ → ℕ → ℚ) (epss : σ → ℕ → ℚ) (dt : ℚ)
+    (φ : σ → κ → ℕ → ℚ) (ψ : σ → ℕ → ℚ)
+    (hN : 3 ≤ xs.size) (hx0 : xs.getD 0 0 = 0) (hx1 : xs.getD (xs.size-1) 0 = 1)
+    (hgd : Pd.gamma = 0) (hmd : ∀ m ∈ Pd.ms, m = 0) (hgs : Ps.gamma = 0) (hms : ∀ m ∈ Ps.ms, m = 0)
+    (hnu : Pd.nu = Ps.nu) (hV : ∀ u, Pd.V u = Ps.V u)
+    (hZ : ∀ s k, (others s k).all (· == 0) = true → (cs s).all (· == 0) = true)
+    (hO : ∀ s k, (others s k).all (· == 1) = true → (cs s).all (· == 1) = true)
+    (hpd : ∀ s k, PivotsOk 1 0 ((axisLine xs Pd (others s k) used (epsd s k) dt).rows (φ s k)))
+    (hps : ∀ s, PivotsOk 1 0 ((axisLine xs Ps (cs s) uses (epss s) dt).rows (ψ s)))
+    (hinv : MargAgree xs.size cs (fun s j => ∑ k, W k * φ s k j) ψ) :
+    MargAgree xs.size cs
+      (fun s j => ∑ k, W k * stepFam (fun i : σ × κ => axisLine xs Pd (others i.1 i.2) used (epsd i.1 i.2) dt)
+        (fun i => φ i.1 i.2) (s, k) j)
+      (stepFam (fun s => axisLine xs Ps (cs s) uses (epss s) dt) ψ) :=
+  marginal_sweep_in_S W xs Pd Ps cs others used uses epsd epss dt φ ψ hN hx0 hx1 hgd hmd hgs hms hnu hV hZ hO hpd hps hinv
+
+/-- **sweep along an axis outside S** (arbitrary parameters of that population): above a non-corner S-index no line is a corner
+    line, so every line keeps its trapezoid mass and the marginal is unchanged -/
+theorem C04_isolated_marginal_outside : type_of% @marginal_sweep_outside_S := @marginal_sweep_outside_S
+
+/-- **injection**: dropping population p from a (d+1)-dimensional system turns the generated increment of every remaining
+    population into the d-dimensional one once multiplied by p's trapezoid weight at its zero index (all d ≤ 4, all k, all p) -/
+theorem C04_isolated_marginal_inject (d k p : ℕ) (hd : d ≤ 4) (hk : k < d) (hp : p ≤ d) (dt θ : ℚ) (g : ℕ → ℕ → ℚ)
+    (hg : g p 1 ≠ 0) :
+    (injectAmt (d+1) (skipAx p k) dt θ g).getD 0 * (g p 1 / 2) = (injectAmt d k dt θ (fun l => g (skipAx p l))).getD 0 :=
+  injectAmt_drop d k p hd hk hp dt θ g hg
+
+/-- **composition**: any invariant preserved by injection, by the sweeps along S-axes (paired with the S-system's sweeps) and by the
+    sweeps along the other axes is preserved by one full time step of both systems -/
+theorem C04_isolated_marginal_step : type_of% @marginal_invariant_step := @marginal_invariant_step
+
+/-- …and by whole integrations taken with the same time-step rule (constant-parameter driver; `marginal_invariant_integrateFn`
+    is the time-dependent one) -/
+theorem C04_isolated_marginal_integrate : type_of% @marginal_invariant_integrate := @marginal_invariant_integrate
+
+/-- **end-to-end instance** (two populations, S = {population 1 of 2}): for every grid from 0 to 1 and every number of steps, the
+    trapezoid marginal over population 2 of `integrateConst (sweepFn [xs, xs] …)` equals `integrateConst (sweepFn [xs] …)` at every
+    interior frequency, population 2 having arbitrary size, selection and dominance -/
+theorem C04_isolated_marginal_2D : type_of% @marginal_2D_pop0_integrate := @marginal_2D_pop0_integrate
 
 /-- non-vacuity: a strictly increasing 4-point grid is `GridOk`; a line with one interior other-coordinate is non-corner -/
 example : GridOk #[0, 1/4, 1/2, 1] := by
